@@ -369,7 +369,10 @@ class Superposition(SuperpositionDomain, ExprDict):
                              (self.quantity, x.quantity))
 
         if _is_s_arg(x):
-            new = self.decompose()
+            # Copy, otherwise the cached decomposition of self is mutated.
+            new = self.__class__()
+            for kind, value in self.decompose().items():
+                new[kind] = value
         else:
             new = self.__class__(self)
 
